@@ -391,6 +391,10 @@ class FileResponse(Response, FileResponseMixin):
     ) -> Iterable[bytes]:
         send_header_only = environ["REQUEST_METHOD"] == "HEAD"
 
+        # The same response object may answer several requests:
+        # forget the range of an earlier one.
+        self.headers.pop("content-range", None)
+
         stat_result = self.stat_result
         file_size = stat_result.st_size
 
